@@ -73,7 +73,7 @@ def gate_tree(files=None) -> list:
     return probs
 
 
-def coqproject_files() -> list:
+def _unused_coqproject_files() -> list:
     out = []
     with open(os.path.join(COQ, "_CoqProject")) as f:
         for line in f:
@@ -83,41 +83,24 @@ def coqproject_files() -> list:
     return out
 
 
-class _Lock:
-    def __enter__(self):
-        self.f = open(os.path.join(COQ, ".buildlock"), "w")
-        fcntl.flock(self.f, fcntl.LOCK_EX)
-        return self
-
-    def __exit__(self, *a):
-        fcntl.flock(self.f, fcntl.LOCK_UN)
-        self.f.close()
-
-
-def ensure_makefile():
-    mk = os.path.join(COQ, "Makefile.coq")
-    cp = os.path.join(COQ, "_CoqProject")
-    if not os.path.exists(mk) or os.path.getmtime(mk) < os.path.getmtime(cp):
-        rc, out = run(["coq_makefile", "-f", "_CoqProject", "-o", "Makefile.coq"], 120, cwd=COQ)
-        if rc != 0:
-            raise RuntimeError("coq_makefile failed: " + out)
-
-
 def make_targets(targets, timeout=3000, jobs=8):
-    """make the given .vo targets (full .vo build, never -vos). Returns (ok, log)."""
-    with _Lock():
-        ensure_makefile()
-        rc, out = run(
-            ["make", "-f", "Makefile.coq", "-j%d" % jobs] + list(targets), timeout, cwd=COQ
-        )
-    return rc == 0, out
+    """build the given static .vo targets (paths relative to coq/, .vo or .v suffix)."""
+    from . import build
+
+    rels = [t[:-3] + ".v" if t.endswith(".vo") else t for t in targets]
+    ok, log_, _ = build.build(rels, jobs=jobs)
+    return ok, log_
 
 
-def make_all(timeout=3400, jobs=16):
-    with _Lock():
-        ensure_makefile()
-        rc, out = run(["make", "-f", "Makefile.coq", "-k", "-j%d" % jobs], timeout, cwd=COQ)
-    return rc == 0, out
+def make_all(jobs=16):
+    from . import build
+
+    ok, log_, comp = build.build(build.all_static(), jobs=jobs)
+    try:
+        build.write_coqproject()
+    except RuntimeError:
+        pass
+    return ok, log_ + "\ncompiled: %d files" % len(comp)
 
 
 def build_dir(pid: str) -> str:
